@@ -2384,13 +2384,10 @@ fn body_der_raw<const B: usize, const L: usize>(c: &Case, rec: &mut Rec) -> R {
     match ctor {
         0 | 1 => {
             // signed two's complement content (leading 0xff stripped by the constructor)
-            let r = if raw.is_empty() {
-                rf(Exp::Either, false)
-            } else if raw[0] >= 0x80 {
-                rf(Exp::Must("negative"), true)
-            } else {
-                rf(val_or_oor(be_val(raw), B, None, true), true)
-            };
+            // The constructors only strip redundant 0xff bytes of negative numbers; a redundant
+            // leading 0x00 reaches ruint, whose DER conversions enforce canonical form
+            // (non_canonical_error), so such contents must be rejected like in the Any path.
+            let r = if raw.is_empty() { rf(Exp::Either, false) } else { rf(der_content_ref(raw, B, None), true) };
             book(rec, "der_raw", c, &r, &|| json!({"ctor": "Int::new", "content": hx(raw), "ref": show_ref(&r)}));
             if ctor == 0 {
                 if let Ok(Ok(x)) = catch_loc(|| Int::new(raw)) {
